@@ -10,6 +10,7 @@ import (
 	"math/rand"
 
 	"verif/core"
+	"verif/mon"
 	fc "verif/props/framecodec"
 )
 
@@ -646,6 +647,22 @@ func roundTrip(c *core.Ctx, id string, r int) {
 		c.Violation("C04:constructor-rejects-valid-configuration:"+e.Kind, id, e.String()+" panicked: "+err.Error(), nil)
 		return
 	}
+	// a third of the round trips send the encoder's output through the channel's own write path (synchronous, or queued
+	// with the background sender held back until every write call has returned) and decode what reached the transport
+	var wrig *fc.WireRig
+	via := ""
+	if rng.Intn(3) == 0 {
+		mode, q := mon.Sync, 0
+		if rng.Intn(3) != 0 {
+			mode, q = mon.Blocking, 4096
+		}
+		if wrig, err = fc.NewWireRig(e, mode, q); err != nil {
+			wrig = nil
+		} else {
+			via = " via the " + mode.String() + " channel"
+			c.Count("round_trips_through_channel", 1)
+		}
+	}
 	// admitted payload lengths for the encoder
 	lo, hi := 0, 70000
 	if e.Kind == fc.LF || e.Kind == fc.Prepender {
@@ -699,6 +716,33 @@ func roundTrip(c *core.Ctx, id string, r int) {
 			msg = fc.Carry(carrier, p, rng)
 		}
 		off += n
+		if wrig != nil && e.Kind == fc.Fixed {
+			if _, isString := msg.(string); isString {
+				// the fixed-length encoder passes messages through unchanged and the channel's head handler takes no
+				// strings (that needs the text codec): use a carrier the head accepts
+				carrier, msg = "[]byte", append([]byte{}, p...)
+			}
+		}
+		if wrig != nil {
+			if werr := wrig.Write(msg); werr != nil {
+				wrig.Finish()
+				rig.Close()
+				c.Violation("C04:round-trip-encode-failed:"+e.Kind, id, fmt.Sprintf("%s%s: Channel.Write of an admitted %d-byte payload (%s) returned %v", e, via, n, carrier, werr), nil)
+				return
+			}
+			want, _ := e.Expect(p)
+			st := len(s.wire)
+			s.wire = append(s.wire, want...) // placeholder with the reference layout; replaced by the real wire below
+			s.layout = append(s.layout, fc.Span{Start: st, HdrEnd: st + len(want) - n, End: len(s.wire)})
+			if e.Kind == fc.Delim {
+				s.layout[f].HdrEnd = st + n
+			}
+			s.expect = append(s.expect, p)
+			if n > maxLen {
+				maxLen = n
+			}
+			continue
+		}
 		em, exc, _ := rig.Write(msg)
 		if len(em) != 1 || len(exc) != 0 || em[0].Err != "" {
 			rig.Close()
@@ -718,6 +762,19 @@ func roundTrip(c *core.Ctx, id string, r int) {
 		}
 	}
 	rig.Close()
+	if wrig != nil {
+		wire, exc, ok := wrig.Finish()
+		if !ok {
+			c.Inconclusive(id, "watchdog: the channel did not quiesce after the round-trip writes")
+			return
+		}
+		if len(exc) != 0 || len(wire) != len(s.wire) {
+			c.Violation("C04:round-trip-encode-failed:"+e.Kind, id, fmt.Sprintf("%s%s: %d admitted payloads written, %d bytes reached the transport (reference encoding: %d bytes), exceptions=%v", e, via, k, len(wire), len(s.wire), fc.ErrStrings(exc)),
+				map[string]interface{}{"encoder": e.String()})
+			return
+		}
+		s.wire = wire
+	}
 	// the matching decoder; maximum tight or loose
 	total := 0
 	for _, sp := range s.layout {
